@@ -79,6 +79,9 @@ Definition order_of_typ (typ : string) : option (option (list string)) :=
   else if String.eqb typ K_ART then Some None
   else None.
 
+(* the cert argument of verify_redirect_signature / one published certificate of the issuer *)
+Inductive certarg (cert : Type) := CAbsent | CCert (c : cert) | CUnreadable.
+
 Section Crypto.
   Context {key cert : Type}.
   Variable cert_of : key -> cert.
@@ -157,9 +160,9 @@ Section Crypto.
   Definition verify_redirect_signature := verify_redirect_signature_gen true.
   Definition verify_redirect_signature_v0 := verify_redirect_signature_gen false.
 
-  (* Request._do_redirect_sig_check: any(verify_redirect_signature(msg, backend, cert) for cert in certs);
-     an exception raised for the first certificate propagates and the caller turns it into a rejection,
-     so at the accept/reject level this is "some certificate yields True" *)
+  (* Request._do_redirect_sig_check at the accept/reject level, for READABLE certificates: "some certificate
+     yields True" (the faithful loop, with unreadable certificates and exceptions, is do_redirect_sig_check_c
+     below; Proofs.check_c_existsb relates the two) *)
   Definition do_redirect_sig_check (own : key) (certs : list cert) (q : query) : bool :=
     existsb (fun c => vres_eqb (verify_redirect_signature own q (Some c)) VTrue) certs.
 
@@ -176,4 +179,64 @@ Section Crypto.
       | _, _ => false
       end
     else true.
+
+  (* ---- the cert argument as the code distinguishes it (strengthening round 3).
+     CAbsent: falsy (None or ""): "if cert:" is false, _key = sigkey = None, and RSASigner.verify falls back on
+     the key of the backend (the verifying entity's own key).
+     CCert c: pem_format + load_pem_x509_certificate succeed: the public key of certificate c.
+     CUnreadable: extract_rsa_key_from_x509_cert raises ValueError (octets that are no X.509 certificate,
+     text that is no base64 / no ASCII); this happens after the SigAlg / message type / Signature look-ups and
+     before the Signature parameter is decoded (which raises ValueError as well) *)
+  Definition verify_redirect_signature_c (own : key) (q : query) (ca : certarg cert) : vres :=
+    match ca with
+    | CAbsent _ => verify_redirect_signature own q None
+    | CCert _ c => verify_redirect_signature own q (Some c)
+    | CUnreadable _ =>
+        match get q K_ALG with
+        | None => VKeyError
+        | Some alg =>
+            match digest_of alg with
+            | None => VNone
+            | Some _ =>
+                if has q K_REQ || has q K_RESP then
+                  match get q K_SIG with
+                  | None => VKeyError
+                  | Some _ => VValueError             (* extract_rsa_key_from_x509_cert *)
+                  end
+                else VUnsupported
+            end
+        end
+    end.
+
+  (* Request._do_redirect_sig_check, the loop as coded (fix 2dad6239):
+       for cert_name, cert in certs:
+           try:
+               if verify_redirect_signature(_saml_msg, backend, cert): verified = True; break
+           except ValueError: (log) -- go on to the next certificate
+     Some b = returns b; None = another exception propagates (the caller turns it into a rejection) *)
+  Fixpoint do_redirect_sig_check_c (own : key) (certs : list (certarg cert)) (q : query) : option bool :=
+    match certs with
+    | [] => Some false
+    | c :: r =>
+        match verify_redirect_signature_c own q c with
+        | VTrue => Some true
+        | VFalse | VNone | VValueError => do_redirect_sig_check_c own r q
+        | VKeyError | VUnsupported | VOther => None
+        end
+    end.
+
+  Definition loads_redirect_c (own : key) (certs : list (certarg cert)) (must : bool) (origdoc : string)
+             (rs sigalg signature : option string) : bool :=
+    if must then
+      match sigalg, signature with
+      | Some a, Some s =>
+          let q := ([(K_REQ, origdoc); (K_SIG, s); (K_ALG, a)]
+                     ++ match rs with Some r => [(K_RS, r)] | None => [] end)%list in
+          match do_redirect_sig_check_c own certs q with Some b => b | None => false end
+      | _, _ => false
+      end
+    else true.
 End Crypto.
+Arguments CAbsent {cert}.
+Arguments CCert {cert} c.
+Arguments CUnreadable {cert}.
